@@ -48,6 +48,9 @@ struct entry {
 static int initialised = 0;
 static int active = 0; /* plan/trace machinery on */
 static char tracked[MAX_FD];
+static char at_eof[MAX_FD]; /* a delivered premature end of file persists for the descriptor */
+#define MAX_TRACE_LINES 20000
+static long trace_lines = 0;
 static struct entry plan[MAX_PLAN];
 static int plan_len = 0;
 static long call_index = 0;
@@ -151,6 +154,7 @@ static struct entry *lookup(long idx) {
 
 static void trace(long idx, const char *call, int fd, const char *path, long req, long res, int err, const char *fault) {
     if (trace_fd < 0) return;
+    if (++trace_lines > MAX_TRACE_LINES) return; /* a spinning SUT must not fill the disk with trace */
     char line[768];
     int n = snprintf(line, sizeof line, "%ld %s %d %s %ld %ld %d %s\n", idx, call, fd, path ? path : "-", req, res, err, fault ? fault : "-");
     if (n > 0) raw_write_all(trace_fd, line, (size_t)(n < (int)sizeof line ? n : (int)sizeof line - 1));
@@ -245,6 +249,10 @@ ssize_t read(int fd, void *buf, size_t count) {
     struct entry *en = lookup(idx);
     size_t want = count;
     const char *fault = NULL;
+    if (at_eof[fd]) {
+        trace(idx, "read", fd, NULL, (long)count, 0, 0, "eof");
+        return 0;
+    }
     if (en) {
         if (en->kind == K_CRASH) crash_now(idx, "read", fd, NULL, (long)count);
         if (en->kind == K_EINTR || en->kind == K_ERR) {
@@ -256,6 +264,7 @@ ssize_t read(int fd, void *buf, size_t count) {
         if (en->kind == K_EOF) {
             /* premature end of file: the file was cut short after it was opened */
             trace(idx, "read", fd, NULL, (long)count, 0, 0, "eof");
+            at_eof[fd] = 1;
             return 0;
         }
         if (en->kind == K_SHORT && en->arg >= 1 && (size_t)en->arg < count) {
@@ -305,6 +314,7 @@ int close(int fd) {
     struct entry *en = lookup(idx);
     if (en && en->kind == K_CRASH) crash_now(idx, "close", fd, NULL, 0);
     tracked[fd] = 0;
+    at_eof[fd] = 0;
     int r = real_close(fd);
     int e = errno;
     trace(idx, "close", fd, NULL, 0, r, r < 0 ? e : 0, NULL);
